@@ -10,6 +10,7 @@ Q = spec.Q
 
 
 CUSTOM_FELT = set()
+OVERRIDE_PANIC = set()      # FastFft methods whose type-specific butterfly already has a violable obligation at a smaller length
 
 
 def felt_glue_scen(n, tag=''):
@@ -56,6 +57,10 @@ def felt_glue_scen(n, tag=''):
         fn = P.by_key['<Polynomial<Felt> as FastFft>::' + meth]
         del log[:]
         ex.panics = []
+        if meth in OVERRIDE_PANIC and n > 64:
+            # the override's obligations are already known to be violable at a smaller length (reported there, replayed natively):
+            # executing ten symbolic layers at n = 1024 adds nothing to that finding and takes minutes
+            res['calls'].append((meth, [])); res['panics'].append((meth, [])); continue
         if meth in CUSTOM_FELT and n > 64:
             # already seen (at a smaller length) to do its own arithmetic instead of calling the generic butterflies: executing ten
             # symbolic layers at n = 1024 adds nothing to that finding
@@ -108,6 +113,7 @@ def run(rep, tier, field):
                 for (m2, msg, site, vec) in r.get('panic_models', []):
                     if m2 == meth and pow2:
                         override_findings.append((n, meth, want_generic, msg, site, vec))
+                        OVERRIDE_PANIC.add(meth)
                 continue
             if meth == 'ifft_inplace' and not pow2:
                 if not panics[meth]:
